@@ -470,3 +470,32 @@ def entity_settings_default_display(prop="C05"):
         except Exception as ex:
             r.replay = {"confirmed": False, "error": str(ex)}
     return [r]
+
+
+def project_lists_follow_selection(prop="C05"):
+    """Project.correlate: the project lists from which pages are built hold only displayed entities: they are gathered from the code units AFTER prune(), and the
+    namelists (collected at parse time) are filtered by the visibility of every ancestor before any page is built"""
+    import ast
+    from harness import loader
+    from harness.core import OR, PROVED, REFUTED, UNKNOWN
+    fn = loader.find_def("ford.fortran_project", "Project.correlate")
+    body = fn.body
+    prune_at = [i for i, st in enumerate(body) if isinstance(st, ast.For) and any(isinstance(x, ast.Call) and ast.unparse(x.func).endswith(".prune") for x in ast.walk(st))]
+    gather_at = [i for i, st in enumerate(body) if isinstance(st, ast.For) and "getattr(self, container).extend(entities)" in ast.unparse(st)]
+    nml_at = [i for i, st in enumerate(body) if isinstance(st, ast.Assign) and ast.unparse(st.targets[0]) == "self.namelists"]
+    tgt = "ford.fortran_project.Project.correlate"
+    if len(prune_at) != 1 or len(gather_at) != 1:
+        return [OR(id=f"{prop}.S.Project.correlate.lists_gathered_after_prune", status=UNKNOWN, kind="S", role="pre", backend="ast", target=tgt, detail="prune loop / gathering loop not found in the recognised form")]
+    out = [OR(id=f"{prop}.S.Project.correlate.lists_gathered_after_prune", status=PROVED if gather_at[0] > prune_at[0] else REFUTED, kind="S", role="pre", backend="ast", target=tgt,
+              desc="project.procedures / types / absinterfaces / submodprocedures are gathered from the code units after every unit has been pruned")]
+    ok = False
+    if nml_at:
+        st = body[nml_at[-1]]
+        src = ast.unparse(st.value)
+        ok = nml_at[-1] > prune_at[0] and isinstance(st.value, ast.ListComp) and src.startswith("[nml for nml in self.namelists if") and "is_displayed(nml)" in src
+        helper = [d for d in body if isinstance(d, ast.FunctionDef) and d.name == "is_displayed"]
+        ok = ok and len(helper) == 1 and "getattr(entity, 'visible', True)" in ast.unparse(helper[0]) and "getattr(entity, 'parent', None)" in ast.unparse(helper[0])
+    out.append(OR(id=f"{prop}.S.Project.correlate.namelists_filtered_after_prune", status=PROVED if ok else REFUTED, kind="S", role="post", backend="ast", target=tgt,
+                  desc="project.namelists (filled while parsing) is reduced, after pruning, to the namelists all of whose ancestors are displayed",
+                  witness=None if ok else {"assignments to self.namelists in correlate": [ast.unparse(body[i])[:160] for i in nml_at]}))
+    return out
